@@ -1180,6 +1180,10 @@ class TransformSet:
             to_instrument=captures,
             set_conformer=self.set_conformer,
         )
+        # Only the code of this function is used (it is installed in the
+        # original function), so it must not count as a function that the
+        # code's reference resolves to.
+        transformed.__ptera_discard__ = True
         return self._register(captures, transformed)
 
 
